@@ -275,6 +275,36 @@ static void trampolines() {
         if (r != (ssize_t)n || got != data) vp::fail("trampoline:sink", vp::fmt("header/body sink: returned %zd for N=%zu, received %s of %s", r, n, vp::hex(got).c_str(), vp::hex(data).c_str()), rep);
     }
 }
+// An octet-style driver behind the chunk API that fails only after more than 2^31 octets of one request: the hard error is returned unchanged by
+// source_get_chunk, the at-most variant returns the count actually moved. 2^31 driver calls per call: unsanitized optimised builds, thorough tier only.
+// The destination is one 64 MiB memory file mapped 33 times in a row (2 GiB + 64 MiB of addresses, 64 MiB of memory).
+#include <sys/syscall.h>
+struct OctetFail { uint64_t pos = 0, fail_at; int code; };
+static int octet_fail_cb(void *d, void *out) { OctetFail *o = (OctetFail *)d; if ((o->pos & 0xffffff) == 0) vp::alive(); if (o->pos >= o->fail_at) return o->code; *(uint8_t *)out = (uint8_t)o->pos; o->pos++; return 1; }
+static void giant_octet_failure() {
+    const size_t piece = (size_t)64 << 20, pieces = 33, span = piece * pieces;
+    int fd = (int)syscall(SYS_memfd_create, "vp-c17", 0u);
+    if (fd < 0 || ftruncate(fd, (off_t)piece) != 0) { vp::stats().notes["giant_octet_failure"] = "memfd not available: phase skipped"; if (fd >= 0) close(fd); return; }
+    uint8_t *base = (uint8_t *)mmap(nullptr, span, PROT_NONE, MAP_PRIVATE | MAP_ANONYMOUS | MAP_NORESERVE, -1, 0);
+    bool ok = base != MAP_FAILED;
+    for (size_t i = 0; ok && i < pieces; i++) if (mmap(base + i * piece, piece, PROT_READ | PROT_WRITE, MAP_SHARED | MAP_FIXED, fd, 0) == MAP_FAILED) ok = false;
+    close(fd);
+    if (!ok) { vp::stats().notes["giant_octet_failure"] = "address space not available: phase skipped"; return; }
+    alarm(0);   // 2^32 driver calls in this phase: bounded work, many seconds; the progress watchdog is switched off for its duration
+    const uint64_t moved = ((uint64_t)1 << 31) + 1000;
+    for (int variant = 0; variant < 2; variant++) {
+        std::string rep = vp::fmt("giant-octet-failure %d\n", variant);
+        vp::CaseScope scope([rep] { return rep; });
+        OctetFail o; o.fail_at = moved; o.code = variant == 0 ? -EIO : -ENODATA;
+        Source src; octet_source_init(&src, octet_fail_cb, &o);
+        ssize_t r = variant == 0 ? source_get_chunk(&src, base, (size_t)moved + 1000) : source_get_chunk_atmost(&src, base, (size_t)moved + 1000);
+        vp::count(); vp::nontrivial(vp::fnv(rep)); vp::cls("octet-driver-fails-after-2^31-octets-of-one-request");
+        if (variant == 0 && r != -EIO) vp::fail("giant-octet:hard-error-not-returned", vp::fmt("source_get_chunk over an octet driver that fails with -EIO after %llu octets returned %zd", (unsigned long long)moved, r), rep);
+        if (variant == 1 && r != (ssize_t)moved) vp::fail("giant-octet:atmost-count", vp::fmt("source_get_chunk_atmost over an octet driver that ends after %llu octets returned %zd", (unsigned long long)moved, r), rep);
+    }
+    munmap(base, span);
+    vp::alive(); alarm(vp::args().replay.empty() ? 10 : 60);
+}
 static void huge_transfers() {
     struct Sc { const char *name; size_t n; std::vector<size_t> per_call; };
     std::vector<Sc> scs = {
@@ -397,6 +427,9 @@ static void run() {
                     if (vp::too_many_failures()) return;
                 }
     if (a.shard == a.nshards - 1 && !vp::vg().on) huge_transfers();
+#if !defined(__SANITIZE_ADDRESS__) && !(defined(__has_feature) && __has_feature(address_sanitizer))
+    if (a.thorough() && a.shard == 0 && !vp::vg().on && !getenv("VP_PREMAIN")) giant_octet_failure();
+#endif
     if (a.shard == 0) trampolines();
     // random long transfers
     vp::Rng rng(a.seed * 2749 + a.shard);
@@ -424,6 +457,7 @@ static void run() {
 static bool replay(const std::string &text) {
     Case c;
     if (text.rfind("huge", 0) == 0) { huge_transfers(); return vp::stats().failures.empty(); }
+    if (text.rfind("giant-octet-failure", 0) == 0) { giant_octet_failure(); return vp::stats().failures.empty(); }
     if (text.rfind("trampoline", 0) == 0) { trampolines(); return vp::stats().failures.empty(); }
     if (!parse(text, c)) return false;
     vp::CaseScope scope([] { return ser(g_cur); });
